@@ -3,7 +3,10 @@ package main
 
 import (
 	"math/rand"
+	"strconv"
+	"strings"
 	"time"
+	_ "time/tzdata" // embedded zone database: the zone: Locations do not depend on the machine
 
 	"github.com/pion/interceptor/pkg/verifhooks"
 
@@ -31,34 +34,159 @@ func (c unwrapCase) toCase(buckets ...string) cq.Case {
 	return cq.Case{Coq: cq.T(cq.LZ(c.In), cq.LZ(c.Out)), JSON: c, Buckets: buckets, Trivial: triv}
 }
 
-type ntpCase struct {
-	T1     int64  `json:"t1"`
-	T2     int64  `json:"t2"`
-	Ref    int64  `json:"ref"`
-	N1     uint64 `json:"ntp1"`
-	N2     uint64 `json:"ntp2"`
-	N32    uint32 `json:"ntp32"`
-	Back   int64  `json:"back"`
-	Back32 int64  `json:"back32"`
+// ---- Locations: the time.Time arguments carry a *Location; the conversions must depend on the instant only ----
+
+// locNames is the Location dimension. "Local" = the value exactly as time.Unix(0, ns) returns it
+// (carries time.Local, which is the host zone or the case's Host override); "UTC" = .UTC();
+// "fixed:<seconds east>" = time.FixedZone; "zone:<IANA name>" = time.LoadLocation (embedded tzdata:
+// real zones with DST, half/quarter-hour offsets, and local-mean-time offsets in 1900).
+var locNames = []string{
+	"Local", "UTC",
+	"fixed:3600", "fixed:-18000", "fixed:19800", "fixed:-12600", "fixed:20700", "fixed:45900",
+	"fixed:-43200", "fixed:50400", "fixed:1172", "fixed:-1", "fixed:1", "fixed:0", "fixed:32768", "fixed:-65536",
+	"zone:Europe/Amsterdam", "zone:America/New_York", "zone:Asia/Kolkata", "zone:Australia/Lord_Howe",
+	"zone:America/St_Johns", "zone:Pacific/Apia", "zone:Asia/Kathmandu", "zone:Africa/Monrovia",
 }
 
-func runNTP(t1, t2, ref int64) ntpCase {
-	c := ntpCase{T1: t1, T2: t2, Ref: ref}
-	c.N1 = verifhooks.ToNTP(time.Unix(0, t1))
-	c.N2 = verifhooks.ToNTP(time.Unix(0, t2))
-	c.N32 = verifhooks.ToNTP32(time.Unix(0, t1))
+// hostNames: values time.Local is set to for the duration of one case ("" = leave the host's zone).
+var hostNames = []string{"", "", "fixed:7200", "fixed:-34200", "zone:America/Los_Angeles", "zone:Asia/Tokyo", "UTC"}
+
+var locCache = map[string]*time.Location{}
+
+// location resolves a name of locNames/hostNames ("" and "Local" give nil = keep the value's own Location).
+func location(name string) *time.Location {
+	if name == "" || name == "Local" {
+		return nil
+	}
+	if l, ok := locCache[name]; ok {
+		return l
+	}
+	var l *time.Location
+	switch {
+	case name == "UTC":
+		l = time.UTC
+	case strings.HasPrefix(name, "fixed:"):
+		off, err := strconv.Atoi(name[len("fixed:"):])
+		if err != nil {
+			panic("bad location " + name)
+		}
+		l = time.FixedZone(name, off)
+	case strings.HasPrefix(name, "zone:"):
+		var err error
+		if l, err = time.LoadLocation(name[len("zone:"):]); err != nil {
+			panic("cannot load " + name + ": " + err.Error())
+		}
+	default:
+		panic("bad location " + name)
+	}
+	locCache[name] = l
+
+	return l
+}
+
+// at builds the time.Time for instant ns carrying the named Location.
+func at(ns int64, name string) time.Time {
+	t := time.Unix(0, ns)
+	if l := location(name); l != nil {
+		t = t.In(l)
+	}
+
+	return t
+}
+
+// offsetOf is the UTC offset in seconds of the Location attached to t at t.
+func offsetOf(t time.Time) int64 {
+	_, off := t.Zone()
+
+	return int64(off)
+}
+
+type ntpCase struct {
+	T1   int64  `json:"t1"`
+	T2   int64  `json:"t2"`
+	Ref  int64  `json:"ref"`
+	L1   string `json:"loc1,omitempty"`   // Location of the time.Time passed for t1 ("" = Local)
+	L2   string `json:"loc2,omitempty"`   // ... for t2
+	LRef string `json:"locref,omitempty"` // ... for the ToTime32 reference
+	LAlt string `json:"localt,omitempty"` // second Location in which t1 and ref are passed once more
+	Host string `json:"host,omitempty"`   // time.Local during the case ("" = the host's)
+	O1   int64  `json:"off1"`
+	O2   int64  `json:"off2"`
+	ORef int64  `json:"offref"`
+	OAlt int64  `json:"offalt"`
+
+	N1        uint64 `json:"ntp1"`
+	N2        uint64 `json:"ntp2"`
+	N32       uint32 `json:"ntp32"`
+	Back      int64  `json:"back"`
+	Back32    int64  `json:"back32"`
+	NAlt      uint64 `json:"ntpalt"`
+	N32Alt    uint32 `json:"ntp32alt"`
+	Back32Alt int64  `json:"back32alt"`
+}
+
+// locs is the Location assignment of one case.
+type locs struct{ L1, L2, LRef, LAlt, Host string }
+
+func runNTP(t1, t2, ref int64, l locs) ntpCase {
+	c := ntpCase{T1: t1, T2: t2, Ref: ref, L1: l.L1, L2: l.L2, LRef: l.LRef, LAlt: l.LAlt, Host: l.Host}
+	if h := location(l.Host); h != nil {
+		saved := time.Local
+		time.Local = h
+		defer func() { time.Local = saved }()
+	}
+	a1, a2, r := at(t1, l.L1), at(t2, l.L2), at(ref, l.LRef)
+	aalt, ralt := at(t1, l.LAlt), at(ref, l.LAlt)
+	c.O1, c.O2, c.ORef, c.OAlt = offsetOf(a1), offsetOf(a2), offsetOf(r), offsetOf(aalt)
+	c.N1 = verifhooks.ToNTP(a1)
+	c.N2 = verifhooks.ToNTP(a2)
+	c.N32 = verifhooks.ToNTP32(a1)
 	c.Back = verifhooks.ToTime(c.N1).UnixNano()
-	c.Back32 = verifhooks.ToTime32(c.N32, time.Unix(0, ref)).UnixNano()
+	c.Back32 = verifhooks.ToTime32(c.N32, r).UnixNano()
+	c.NAlt = verifhooks.ToNTP(aalt)
+	c.N32Alt = verifhooks.ToNTP32(aalt)
+	c.Back32Alt = verifhooks.ToTime32(c.N32, ralt).UnixNano()
 
 	return c
 }
 
+func (c ntpCase) locs() locs { return locs{c.L1, c.L2, c.LRef, c.LAlt, c.Host} }
+
 func (c ntpCase) toCase(buckets ...string) cq.Case {
 	return cq.Case{
 		Coq: cq.T(cq.Z(c.T1), cq.Z(c.T2), cq.Z(c.Ref), cq.ZU(c.N1), cq.ZU(c.N2), cq.ZU(uint64(c.N32)),
-			cq.Z(c.Back), cq.Z(c.Back32)),
+			cq.Z(c.Back), cq.Z(c.Back32),
+			cq.T(cq.Z(c.O1), cq.Z(c.O2), cq.Z(c.ORef), cq.Z(c.OAlt)),
+			cq.T(cq.ZU(c.NAlt), cq.ZU(uint64(c.N32Alt)), cq.Z(c.Back32Alt))),
 		JSON: c, Buckets: buckets,
 	}
+}
+
+// genLocs draws the Location assignment of a case (own PRNG: the instants of a seed do not change).
+func genLocs(r *rand.Rand) (locs, string) {
+	pick := func() string { return locNames[r.Intn(len(locNames))] }
+	var l locs
+	b := "loc-mixed"
+	switch r.Intn(8) {
+	case 0: // everything as time.Unix returns it; alt = UTC
+		b = "loc-local"
+		l = locs{L1: "Local", L2: "Local", LRef: "Local", LAlt: "UTC"}
+	case 1, 2: // one Location for the whole case (a host in that zone), alt differs
+		b = "loc-same"
+		z := pick()
+		l = locs{L1: z, L2: z, LRef: z}
+	case 3: // only the reference is elsewhere
+		b = "loc-ref"
+		l = locs{L1: "UTC", L2: "UTC", LRef: pick()}
+	default:
+		l = locs{L1: pick(), L2: pick(), LRef: pick()}
+	}
+	for l.LAlt == "" || l.LAlt == l.L1 {
+		l.LAlt = pick()
+	}
+	l.Host = hostNames[r.Intn(len(hostNames))]
+
+	return l, b
 }
 
 var boundary = []int64{0, 1, 2, 100, 32766, 32767, 32768, 32769, 65534, 65535}
@@ -108,7 +236,7 @@ func main() {
 		Checks: []string{"unwrap_mismatches", "unwrap_spec_failures"},
 	}
 	nt := &cq.Set{
-		Name: "c20ntp", Import: "IV.Check.C20Check", CaseType: "Z * Z * Z * Z * Z * Z * Z * Z",
+		Name: "c20ntp", Import: "IV.Check.C20Check", CaseType: "Z * Z * Z * Z * Z * Z * Z * Z * (Z * Z * Z * Z) * (Z * Z * Z)",
 		Checks: []string{"ntp_mismatches", "ntp_spec_failures"},
 	}
 	if o.Replay != "" {
@@ -121,7 +249,7 @@ func main() {
 		} else {
 			var c ntpCase
 			cq.LoadReplay(o.Replay, &c)
-			nt.Cases = append(nt.Cases, runNTP(c.T1, c.T2, c.Ref).toCase("replay"))
+			nt.Cases = append(nt.Cases, runNTP(c.T1, c.T2, c.Ref, c.locs()).toCase("replay"))
 		}
 		cq.Write(o, "replay", []*cq.Set{uw, nt}, nil, nil)
 
@@ -150,6 +278,37 @@ func main() {
 		s, name := genSeq(r)
 		uw.Cases = append(uw.Cases, runUnwrap(s).toCase(name))
 	}
+	// regression corpus (findings/C20/*.json) first
+	for _, f := range o.CorpusFiles() {
+		var raw map[string]interface{}
+		if cq.LoadReplay(f, &raw) == "c20unwrap" {
+			var c unwrapCase
+			cq.LoadReplay(f, &c)
+			uw.Cases = append(uw.Cases, runUnwrap(c.In).toCase("corpus"))
+		} else {
+			var c ntpCase
+			cq.LoadReplay(f, &c)
+			nt.Cases = append(nt.Cases, runNTP(c.T1, c.T2, c.Ref, c.locs()).toCase("corpus"))
+		}
+	}
+	// fixed instants x every Location (t1, t2 and the reference in that Location; alt = UTC or Local),
+	// under every host zone: the Location dimension is covered exhaustively, not only by sampling
+	for i, name := range locNames {
+		for j, host := range hostNames[1:] {
+			t1 := []int64{1710074096789012345, 0, 951782400000000000, 2085978495000000000 - 1, 1e18 + 1}[(i+j)%5]
+			alt := "UTC"
+			if name == "UTC" {
+				alt = "Local"
+			}
+			l := locs{L1: name, L2: name, LRef: name, LAlt: alt, Host: host}
+			ref := t1 + int64(j)*1000000000
+			if t1 > 10000000000 {
+				ref = t1 - int64(j)*1000000000
+			}
+			nt.Cases = append(nt.Cases, runNTP(t1, t1+int64(1+37*i), ref, l).toCase("loc-table"))
+		}
+	}
+	rl := rand.New(rand.NewSource(o.Seed ^ 0x4c6f63)) //nolint:gosec // Location PRNG
 	nntp := o.Scale(3000, 100000)
 	for i := 0; i < nntp; i++ {
 		var t1 int64
@@ -192,9 +351,12 @@ func main() {
 		if ref < 0 {
 			ref = 0
 		}
-		nt.Cases = append(nt.Cases, runNTP(t1, t2, ref).toCase(b))
+		l, lb := genLocs(rl)
+		nt.Cases = append(nt.Cases, runNTP(t1, t2, ref, l).toCase(b, lb))
 	}
 	cq.Write(o, "unwrap: random/boundary uint16 sequences of 2..61 inputs, distinct by content, non-trivial = at least 2 inputs; "+
-		"ntp: instants 1970..2036 (uniform, near whole seconds, near 2^16 s window edges, recent) with a second instant <1ms later and a reference within 20h",
+		"ntp: instants 1970..2036 (uniform, near whole seconds, near 2^16 s window edges, recent) with a second instant <1ms later and a reference within 20h; "+
+		"every time.Time argument carries a Location (Local, UTC, fixed offsets incl. negative/half-hour/quarter-hour/seconds, IANA zones; t1, t2, reference independently), "+
+		"t1 and the reference are converted a second time in a different Location, and time.Local is varied per case",
 		[]*cq.Set{uw, nt}, nil, nil)
 }
